@@ -104,7 +104,16 @@ func c17FailingSends(c *ev.Ctx, r *rand.Rand, caseN int) {
 		c.Violation("session-stream-broken", desc)
 		return
 	}
-	if p := s.VerifPendingResponsesSize(); p != 0 {
+	// the accounting is given back right AFTER a send returns, i.e. possibly a moment after the healthy peer saw its done:
+	// wait for it (a leak never goes away, so only the length of the wait is a matter of scheduling)
+	p := s.VerifPendingResponsesSize()
+	for w := 0; p != 0 && w < 4000; w++ {
+		mu.Unlock()
+		time.Sleep(5 * time.Millisecond)
+		mu.Lock()
+		p = s.VerifPendingResponsesSize()
+	}
+	if p != 0 {
 		desc["pending_bytes_at_rest"] = p
 		c.Violation("pending-response-memory-exceeds-limit", desc)
 		return
